@@ -844,18 +844,51 @@ def _keys_of_store(fi: FuncInfo, k: ast.expr) -> Optional[Set[str]]:
     if isinstance(k, ast.Name):
         for n in walk_no_nested(fi.node):
             if isinstance(n, (ast.For, ast.comprehension)) and isinstance(n.target, ast.Name) and n.target.id == k.id:
-                its = [n.iter]
-                if isinstance(n.iter, ast.Name) and n.iter.id in fi.module.constants:
-                    its = [fi.module.constants[n.iter.id]]
-                elif isinstance(n.iter, ast.Name) and n.iter.id in fi.params:
-                    # caller-supplied; plus every literal the function itself assigns to it
-                    its = [a.value for a in walk_no_nested(fi.node) if isinstance(a, ast.Assign) and len(a.targets) == 1 and isinstance(a.targets[0], ast.Name) and a.targets[0].id == n.iter.id]
-                    dflt = fi.param_default(n.iter.id)
-                    if dflt is not None and not (isinstance(dflt, ast.Constant) and dflt.value is None):
-                        its.append(dflt)
+                def sources(it, depth=0):
+                    """Literal collections that the iterated value can be (caller-supplied parameters contribute
+                    their literal default and nothing else: the caller's explicit choice is not the library's)."""
+                    if depth > 6:
+                        return None
+                    if isinstance(it, (ast.Tuple, ast.List, ast.Set)):
+                        return [it]
+                    if isinstance(it, ast.Constant) and it.value is None:
+                        return []
+                    if isinstance(it, ast.IfExp):
+                        a, b = sources(it.body, depth + 1), sources(it.orelse, depth + 1)
+                        return None if a is None or b is None else a + b
+                    if isinstance(it, ast.BoolOp) and isinstance(it.op, ast.Or):
+                        parts = [sources(v, depth + 1) for v in it.values]
+                        return None if any(x is None for x in parts) else [y for x in parts for y in x]
+                    if isinstance(it, ast.Call) and dotted(it.func) in ("list", "tuple", "set", "sorted") and len(it.args) == 1:
+                        return sources(it.args[0], depth + 1)
+                    if isinstance(it, ast.Name):
+                        if it.id in fi.module.constants:
+                            return sources(fi.module.constants[it.id], depth + 1)
+                        outl = []
+                        assigns = [a.value for a in walk_no_nested(fi.node) if isinstance(a, ast.Assign) and len(a.targets) == 1 and isinstance(a.targets[0], ast.Name) and a.targets[0].id == it.id]
+                        if it.id in fi.params:
+                            dflt = fi.param_default(it.id)
+                            if dflt is not None:
+                                r0 = sources(dflt, depth + 1)
+                                if r0 is None:
+                                    return None
+                                outl += r0
+                        elif not assigns:
+                            return None
+                        for v in assigns:
+                            r0 = sources(v, depth + 1)
+                            if r0 is None:
+                                return None
+                            outl += r0
+                        return outl
+                    return None
+
+                its = sources(n.iter)
+                if its is None:
+                    return None
                 out: Set[str] = set()
                 for it in its:
-                    if isinstance(it, (ast.Tuple, ast.List, ast.Set)) and all(isinstance(e, ast.Constant) and isinstance(e.value, str) for e in it.elts):
+                    if all(isinstance(e, ast.Constant) and isinstance(e.value, str) for e in it.elts):
                         out |= {e.value for e in it.elts}
                     else:
                         return None
